@@ -755,6 +755,70 @@ pub fn parent_c18(scn: &dyn Scenario, tier: Tier, seed: u64, bins: &[(String, St
             }
         }
     }
+    // extra corpus: explicit crafted specs generated here (default feature set) and executed by
+    // every configuration
+    let n_extra = if tier == Tier::Quick { 300 } else { 3000 };
+    let extra = crate::props::c18::gen_extra_corpus(seed, n_extra);
+    let replays_dir = verif_dir().join("replays");
+    std::fs::create_dir_all(&replays_dir).ok();
+    let extra_path = replays_dir.join(format!("C18-extra-corpus-{}.json", seed));
+    let mut extra_diffs: Vec<(usize, String, String)> = Vec::new();
+    if !extra.is_empty() {
+        std::fs::write(&extra_path, serde_json::to_string(&extra).unwrap()).expect("write extra corpus");
+        let mut per: Vec<(String, Vec<u64>)> = Vec::new();
+        for (name, bin) in bins.iter() {
+            let mut digs = vec![0u64; extra.len()];
+            let mut from = 0usize;
+            while from < extra.len() {
+                let out = Command::new(bin).args(["corpus-file", extra_path.to_str().unwrap(), &from.to_string()]).stdin(Stdio::null()).stderr(Stdio::null()).output();
+                let out = match out {
+                    Ok(o) => o,
+                    Err(e) => {
+                        harness_errors.push(format!("[{}] corpus-file: {}", name, e));
+                        break;
+                    }
+                };
+                let mut running: Option<usize> = None;
+                for l in String::from_utf8_lossy(&out.stdout).lines() {
+                    let mut it = l.split_whitespace();
+                    match (it.next(), it.next(), it.next()) {
+                        (Some("RUN"), Some(i), _) => running = i.parse().ok(),
+                        (Some("DIG"), Some(i), Some(d)) => {
+                            if let (Ok(i), Ok(d)) = (i.parse::<usize>(), d.parse::<u64>()) {
+                                digs[i] = d;
+                                running = None;
+                            }
+                        }
+                        _ => {}
+                    }
+                }
+                if out.status.success() {
+                    break;
+                }
+                match running {
+                    Some(i) => {
+                        digs[i] = 0xDEAD_DEAD; // the process was killed during spec i
+                        from = i + 1;
+                    }
+                    None => {
+                        harness_errors.push(format!("[{}] corpus-file exited with {:?}", name, out.status));
+                        break;
+                    }
+                }
+            }
+            per.push((name.clone(), digs));
+        }
+        runs_total += (extra.len() * bins.len()) as u64;
+        if let Some((base_name, base)) = per.first() {
+            for (name, d) in per.iter().skip(1) {
+                for i in 0..extra.len() {
+                    if d[i] != base[i] && !extra_diffs.iter().any(|x| x.0 == i) {
+                        extra_diffs.push((i, base_name.clone(), name.clone()));
+                    }
+                }
+            }
+        }
+    }
     // a run that kills one configuration is compared like any other: the marker is "the process died"
     for (idx, cfg) in &crashed_runs {
         let other = bins.iter().find(|b| b.0 != *cfg).map(|b| b.0.clone()).unwrap_or_default();
@@ -846,8 +910,32 @@ pub fn parent_c18(scn: &dyn Scenario, tier: Tier, seed: u64, bins: &[(String, St
             violation_lines.push(format!("VIOLATION property={} replay={}", id, path.display()));
         }
     }
+    for (i, a, b) in extra_diffs.iter().take(3) {
+        let spec = extra[*i].clone();
+        let path = replays.join(format!("{}-{}-extra{}.json", id, seed, i));
+        let rf = ReplayFile {
+            property: id.to_string(),
+            class: "C18/digest_differs".into(),
+            key: format!("{}:{}", spec.kind.map(|k| k.name()).unwrap_or("?"), spec.variant),
+            detail: format!("crafted corpus entry {} (a linear generator whose state has a zero word after its first operation) behaves differently in configurations {} and {}", i, a, b),
+            verif_seed: seed,
+            run_index: *i as u64,
+            tier: tier.name().to_string(),
+            shrink_steps: 0,
+            spec,
+            slice: None,
+        };
+        std::fs::write(&path, serde_json::to_string_pretty(&rf).unwrap()).expect("write replay");
+        if let Some(text) = known(&kf, id, &rf.class, &rf.key) {
+            known_lines.push(format!("KNOWN-FINDING: property={} {}", id, text));
+        } else {
+            println!("violation: class={} key={} run=extra{} detail={}", rf.class, rf.key, i, rf.detail);
+            violation_lines.push(format!("VIOLATION property={} replay={}", id, path.display()));
+        }
+    }
     let wall = t0.elapsed().as_secs_f64();
     let mut probes = BTreeMap::new();
+    probes.insert("crafted_zero_word_corpus_entries".to_string(), extra.len() as u64);
     for (k, v) in &st.counters {
         probes.insert(k.trim_start_matches("probe:").to_string(), *v);
     }
